@@ -2,7 +2,10 @@
 C06 - fields are never read past the end of the payload.
 
  (A) TLC: NoOverrun / OkInside on every payload of the mini-definitions
-     (payloads of 2, 3 (and 4) bytes: every overrun shape of every construct).
+     (payloads of 2, 3 (and 4) bytes: every overrun shape of every construct);
+     DecodePair.tla (self-composition): PrefixMonotone and CutRule - the decode
+     of a truncation is step-for-step the decode of the full payload until the
+     first field that crosses the cut, where it fails.
  (B) the mini scope through the real interpreter, judged by the spec.
  (C) for complete messages of every real identity: EVERY whole-byte truncation
      that still holds the identity is decoded by the real code and judged by
@@ -39,6 +42,9 @@ def run(tier, rep):
     quick = tier == "quick"
     rep.assumptions += ["TLC 1.8", "value projection in harness/decode_rec.py", "generator only builds inputs; verdicts come from the spec"]
     de.mc_mini(rep, 10 if quick else 12, liveness=False)
+    # two-run lemma: a whole-byte truncation behaves exactly like the full payload until the first
+    # field that crosses the cut, and then fails (PrefixMonotone, CutRule)
+    de.mc_pair(rep, "cut", 8 if quick else 12)
     for fb in ([4, 8] if quick else [4, 12]):
         recs, verdicts = de.judge_minis(rep, fb)
         rep.count("traces_validated_against_impl", len(recs))
